@@ -313,7 +313,7 @@ pub fn probe_wrapper(c: Box<dyn Contract<Empty, Empty>>, _rt: &Rt) -> Vec<String
 
 include!("c20_perms.rs");
 
-const RULE: &str = "cases = (a) AppBuilder step sequences, generated as source code because every with_* changes the builder's type: the empty chain, all 11 \
+const RULE: &str = "cases = (a) AppBuilder step sequences, generated as source code because every with_* changes the builder's type, starting from AppBuilder::new() (and, for chains of up to two steps, also from new_custom()): the empty chain, all 11 \
 single steps, ALL 110 ordered pairs, 40 ordered triples and the full set of 11 steps in 24 orders (rotations, reversal, pseudo-random), each with a tagged replacement of a \
 distinct type per slot (bank, custom, staking, distribution, ibc, gov modules answering with their tag; MockApiBech32 with a tagged prefix; a storage type pre-seeded with a marker; \
 a stub Wasm; a tagged BlockInfo), run-time values varying with VERIF_SEED; the built App is probed with one message and one query per module kind plus block_info / api / storage / \
@@ -356,7 +356,10 @@ fn main() {
         let mut by_set: std::collections::BTreeMap<Vec<&'static str>, (Vec<&'static str>, Vec<String>)> = Default::default();
         for (steps, t) in &chains {
             rep.evaluations += 1;
-            rep.bump(&format!("c20/builder_chains/len{}", steps.len().min(11)));
+            rep.bump(&format!("c20/builder_chains/len{}", steps.iter().filter(|s| **s != "new_custom").count().min(11)));
+            if steps.contains(&"new_custom") {
+                rep.bump("c20/builder_chains/from_new_custom");
+            }
             if steps.len() >= 2 {
                 rep.fingerprints.insert(fp_str(&format!("b{:?}", steps)));
             }
@@ -371,8 +374,8 @@ fn main() {
                     rep.violate("C20", sig, format!("steps {:?}: probe shows [{}], expected [{}]", steps, got, want), json!({"steps": steps, "probe": t, "seed": s}));
                 }
             }
-            // every order of the same set behaves identically
-            let mut set = steps.clone();
+            // every order of the same set — and both constructors, AppBuilder::new() and new_custom() — behave identically
+            let mut set: Vec<&'static str> = steps.iter().copied().filter(|s| *s != "new_custom").collect();
             set.sort();
             if let Some((other, t0)) = by_set.get(&set) {
                 rep.bump("c20/permutation_pairs_compared");
